@@ -30,6 +30,16 @@ def run(tier):
                           ("MC_Counter_replaylt.cfg", "Variant_ReplayLt")):
             dev[flag] = vlib.tlc_must_fail("Counter", cfg, flag, workers=4).violated
         rep.coverage["deviation_counterexamples"] = dev
+        # inductive invariant (Apalache): the clauses for histories of any length of the sequential core
+        obligations = [("Init", "IndInv", 0), ("IndInv", "IndInv", 1), ("IndInv", "Props", 0)]
+        for init, inv, length in obligations:
+            ok, secs = vlib.apalache("Counter_apalache", init, inv, length)
+            if not ok:
+                raise vlib.ToolError("Apalache Counter_apalache: %s => %s (length %d) not discharged" % (init, inv, length))
+            vlib.log("Apalache Counter_apalache %s => %s length %d: ok, %.1fs" % (init, inv, length, secs))
+        rep.coverage["inductive_invariant"] = {"module": "Counter_apalache", "obligations": len(obligations), "discharged": len(obligations),
+                                               "meaning": "AtMostOnce, InOrder, Classified, PersistedBelow hold for submit/sync/reload histories of any "
+                                                          "length over 2 peers and sequence values 0..4 and u64::MAX (atomic submissions)"}
 
     # 2. impl -> spec, sequential histories (violation collection)
     trace = os.path.join(wd, "seq.ndjson")
